@@ -1,1 +1,207 @@
-//! placeholder
+//! Family "decoders" (property C18, Ob18.1 - primitive readers):
+//! plonky2/src/util/serialization/mod.rs  `Read for Buffer` on ARBITRARY byte strings of small
+//! concrete lengths: every reader returns `Ok` or `Err`, never panics / overflows / reads out of
+//! bounds (Kani's checks + dev-profile debug assertions), `Ok` exactly when enough bytes are
+//! present (and the tag bytes are valid), and consumes exactly the encoded size.
+use plonky2::field::goldilocks_field::GoldilocksField as F;
+use plonky2::hash::poseidon::PoseidonHash;
+use plonky2::iop::target::Target;
+use plonky2::util::serialization::{Buffer, Read};
+
+const P: u64 = 0xFFFF_FFFF_0000_0001;
+
+// fixed-width scalars: for a buffer of LEN arbitrary bytes, read_X is Ok iff LEN >= size, value is
+// the little-endian one, position advances by size (or stays on Err).
+macro_rules! dec_scalars {
+    ($name:ident, $len:literal) => {
+        #[kani::proof]
+        #[kani::unwind(12)]
+        fn $name() {
+            let bytes: [u8; $len] = kani::any();
+            {
+                let mut b = Buffer::new(&bytes);
+                match b.read_u8() {
+                    Ok(x) => assert!($len >= 1 && x == bytes[0] && b.pos() == 1),
+                    Err(_) => assert!($len < 1 && b.pos() == 0),
+                }
+            }
+            {
+                let mut b = Buffer::new(&bytes);
+                match b.read_bool() {
+                    Ok(x) => assert!($len >= 1 && bytes[0] == x as u8 && b.pos() == 1),
+                    Err(_) => assert!($len < 1 || bytes[0] > 1),
+                }
+            }
+            {
+                let mut b = Buffer::new(&bytes);
+                match b.read_u16() {
+                    Ok(x) => assert!($len >= 2 && x.to_le_bytes()[..] == bytes[..2] && b.pos() == 2),
+                    Err(_) => assert!($len < 2 && b.pos() == 0),
+                }
+            }
+            {
+                let mut b = Buffer::new(&bytes);
+                match b.read_u32() {
+                    Ok(x) => assert!($len >= 4 && x.to_le_bytes()[..] == bytes[..4] && b.pos() == 4),
+                    Err(_) => assert!($len < 4 && b.pos() == 0),
+                }
+            }
+            {
+                let mut b = Buffer::new(&bytes);
+                match b.read_usize() {
+                    Ok(x) => assert!($len >= 8 && (x as u64).to_le_bytes()[..] == bytes[..8] && b.pos() == 8),
+                    Err(_) => assert!($len < 8 && b.pos() == 0),
+                }
+            }
+            kani::cover!(true);
+        }
+    };
+}
+dec_scalars!(dec_scalars_len0, 0);
+dec_scalars!(dec_scalars_len1, 1);
+dec_scalars!(dec_scalars_len3, 3);
+dec_scalars!(dec_scalars_len4, 4);
+dec_scalars!(dec_scalars_len7, 7);
+dec_scalars!(dec_scalars_len9, 9);
+
+/// read_field on 8 ARBITRARY bytes: must not panic and must yield a canonical element.
+/// (DESIGN section 7 item 1: `read_field` calls `F::from_canonical_u64`, whose only validation is a
+/// `debug_assert!(n < ORDER)`.)
+#[kani::proof]
+#[kani::unwind(12)]
+fn dec_read_field_arbitrary_len8() {
+    let bytes: [u8; 8] = kani::any();
+    let mut b = Buffer::new(&bytes);
+    let r: Result<F, _> = b.read_field();
+    if let Ok(x) = r {
+        assert!(x.0 < P, "read_field returned a non-canonical element");
+        assert!(b.pos() == 8);
+    }
+    kani::cover!(r.is_ok());
+}
+
+/// read_field restricted to canonical limbs, and short buffers: Ok(limb) / Err, never a panic.
+macro_rules! dec_read_field_canonical {
+    ($name:ident, $len:literal) => {
+        #[kani::proof]
+        #[kani::unwind(12)]
+        fn $name() {
+            let bytes: [u8; $len] = kani::any();
+            if $len >= 8 {
+                let mut limb = [0u8; 8];
+                limb.copy_from_slice(&bytes[..8]);
+                kani::assume(u64::from_le_bytes(limb) < P);
+            }
+            let mut b = Buffer::new(&bytes);
+            let r: Result<F, _> = b.read_field();
+            match r {
+                Ok(x) => assert!($len >= 8 && x.0.to_le_bytes()[..] == bytes[..8] && b.pos() == 8),
+                Err(_) => assert!($len < 8 && b.pos() == 0),
+            }
+            kani::cover!(true);
+        }
+    };
+}
+dec_read_field_canonical!(dec_read_field_canonical_len0, 0);
+dec_read_field_canonical!(dec_read_field_canonical_len7, 7);
+dec_read_field_canonical!(dec_read_field_canonical_len8, 8);
+dec_read_field_canonical!(dec_read_field_canonical_len12, 12);
+
+/// read_hash (HashOut, 32 bytes) on arbitrary bytes: no panic, canonical limbs.
+#[kani::proof]
+#[kani::unwind(36)]
+fn dec_read_hash_arbitrary_len32() {
+    let bytes: [u8; 32] = kani::any();
+    let mut b = Buffer::new(&bytes);
+    let r = b.read_hash::<F, PoseidonHash>();
+    if let Ok(h) = r {
+        let i: usize = kani::any();
+        if i < 4 {
+            assert!(h.elements[i].0 < P, "read_hash returned a non-canonical limb");
+        }
+        assert!(b.pos() == 32);
+    }
+    kani::cover!(r.is_ok());
+}
+
+/// read_hash with canonical limbs / short input.
+macro_rules! dec_read_hash_canonical {
+    ($name:ident, $len:literal) => {
+        #[kani::proof]
+        #[kani::unwind(36)]
+        fn $name() {
+            let bytes: [u8; $len] = kani::any();
+            if $len >= 32 {
+                let mut k = 0;
+                while k < 4 {
+                    let mut limb = [0u8; 8];
+                    limb.copy_from_slice(&bytes[8 * k..8 * k + 8]);
+                    kani::assume(u64::from_le_bytes(limb) < P);
+                    k += 1;
+                }
+            }
+            let mut b = Buffer::new(&bytes);
+            let r = b.read_hash::<F, PoseidonHash>();
+            match r {
+                Ok(h) => {
+                    assert!($len >= 32 && b.pos() == 32);
+                    let i: usize = kani::any();
+                    if i < 4 {
+                        assert!(h.elements[i].0.to_le_bytes()[..] == bytes[8 * i..8 * i + 8]);
+                    }
+                }
+                Err(_) => assert!($len < 32 && b.pos() == 0),
+            }
+            kani::cover!(true);
+        }
+    };
+}
+dec_read_hash_canonical!(dec_read_hash_canonical_len31, 31);
+dec_read_hash_canonical!(dec_read_hash_canonical_len32, 32);
+
+/// read_target on LEN arbitrary bytes: Ok iff tag byte valid and enough bytes; 17 / 9 bytes consumed.
+macro_rules! dec_read_target {
+    ($name:ident, $len:literal) => {
+        #[kani::proof]
+        #[kani::unwind(12)]
+        fn $name() {
+            let bytes: [u8; $len] = kani::any();
+            let mut b = Buffer::new(&bytes);
+            match b.read_target() {
+                Ok(Target::Wire(_)) => assert!($len >= 17 && bytes[0] == 1 && b.pos() == 17),
+                Ok(Target::VirtualTarget { .. }) => assert!($len >= 9 && bytes[0] == 0 && b.pos() == 9),
+                Err(_) => assert!($len == 0 || bytes[0] > 1 || (bytes[0] == 1 && $len < 17) || (bytes[0] == 0 && $len < 9)),
+            }
+            kani::cover!(true);
+        }
+    };
+}
+dec_read_target!(dec_read_target_len0, 0);
+dec_read_target!(dec_read_target_len1, 1);
+dec_read_target!(dec_read_target_len8, 8);
+dec_read_target!(dec_read_target_len9, 9);
+dec_read_target!(dec_read_target_len16, 16);
+dec_read_target!(dec_read_target_len17, 17);
+
+// NOTE: `read_usize_vec` with an arbitrary (unvalidated) length prefix panics with `capacity overflow`
+// (Vec::with_capacity(len)). It is only reachable from circuit-data / gate decoders, not from the proof
+// decoders C18 is about, so it is recorded in DESIGN.md as an observation and not checked here.
+
+/// The same with the prefix restricted to what the input can hold: Ok iff prefix <= 1.
+#[kani::proof]
+#[kani::unwind(5)]
+fn dec_read_usize_vec_small_prefix_len16() {
+    let bytes: [u8; 16] = kani::any();
+    let mut pre = [0u8; 8];
+    pre.copy_from_slice(&bytes[..8]);
+    let n = u64::from_le_bytes(pre);
+    kani::assume(n <= 3);
+    let mut b = Buffer::new(&bytes);
+    let r = b.read_usize_vec();
+    match &r {
+        Ok(v) => assert!(n <= 1 && v.len() == n as usize && b.pos() == 8 + 8 * n as usize),
+        Err(_) => assert!(n >= 2),
+    }
+    kani::cover!(r.is_ok() && n == 1);
+    core::mem::forget(r);
+}
